@@ -162,6 +162,25 @@ theorem apply_refines (v : Vec) (op : Op) (h : VInv v)
     · have : (List.take v.size v.slots)[key]? = none := List.getElem?_eq_none (by simp; omega)
       rw [this, if_neg hk]
 
+/-- Aliasing arguments: `v.emplace(pos, v[k])` etc. insert the value `v[k]` had when the call was
+made, exactly as the bounded list does. -/
+theorem applyA_refines (v : Vec) (a : AOp) (h : VInv v)
+    (hop : match a with | .plain (.range pos _) => pos = v.size | _ => True) :
+    (elems (applyA v a none).1, (applyA v a none).2) = Ref.applyA v.cap (elems v) a := by
+  unfold applyA Ref.applyA
+  cases hr : resolveL (elems v) a with
+  | none => rfl
+  | some op =>
+    apply apply_refines v op h
+    cases a with
+    | plain o =>
+      simp [resolveL] at hr; subst hr
+      cases o <;> first | trivial | exact hop
+    | emplaceAtAlias pos k => simp only [resolveL] at hr; split at hr <;> simp at hr; subst hr; trivial
+    | pushBackAlias k => simp only [resolveL] at hr; split at hr <;> simp at hr; subst hr; trivial
+    | emplaceBackAlias k => simp only [resolveL] at hr; split at hr <;> simp at hr; subst hr; trivial
+    | insertAlias k => simp only [resolveL] at hr; split at hr <;> simp at hr; subst hr; trivial
+
 /-- Histories on one vector (no element exceptions). -/
 def run (v : Vec) : List Op → Vec
   | [] => v
